@@ -6,51 +6,51 @@ From Boltons Require Import Lib.Prelude Lib.C11_Iface Spec.C11_Spec Model.C11_Mo
 (* ---- pydict ------------------------------------------------------------------- *)
 Section Dict.
   Context {B : Type}.
-  Implicit Type d : pydict B.
+  Implicit Type d : tdict B.
 
-  Lemma d_get_set d k v k' : d_get (d_set d k v) k' = if Nat.eqb k' k then Some v else d_get d k'.
+  Lemma d_get_set d k v k' : d_get (d_set d k v) k' = if N.eqb k' k then Some v else d_get d k'.
   Proof.
     induction d as [|[k0 v0] d IH]; simpl.
-    - destruct (Nat.eqb k' k); reflexivity.
-    - destruct (Nat.eqb k k0) eqn:E; simpl.
-      + apply Nat.eqb_eq in E. subst k0. destruct (Nat.eqb k' k); reflexivity.
-      + rewrite IH. destruct (Nat.eqb k' k0) eqn:E2; [|reflexivity].
-        apply Nat.eqb_eq in E2. subst k0. rewrite Nat.eqb_sym, E. reflexivity.
+    - destruct (N.eqb k' k); reflexivity.
+    - destruct (N.eqb k k0) eqn:E; simpl.
+      + apply N.eqb_eq in E. subst k0. destruct (N.eqb k' k); reflexivity.
+      + rewrite IH. destruct (N.eqb k' k0) eqn:E2; [|reflexivity].
+        apply N.eqb_eq in E2. subst k0. rewrite N.eqb_sym, E. reflexivity.
   Qed.
 
   Lemma d_get_none_keys d k : d_get d k = None <-> ~ In k (d_keys d).
   Proof.
     induction d as [|[k0 v0] d IH]; simpl; [tauto|].
-    destruct (Nat.eqb k k0) eqn:E.
-    - apply Nat.eqb_eq in E. subst. split; [discriminate|]. intros H. exfalso. apply H. left. reflexivity.
-    - apply Nat.eqb_neq in E. rewrite IH. unfold d_keys. simpl. split; intros H.
+    destruct (N.eqb k k0) eqn:E.
+    - apply N.eqb_eq in E. subst. split; [discriminate|]. intros H. exfalso. apply H. left. reflexivity.
+    - apply N.eqb_neq in E. rewrite IH. unfold d_keys. simpl. split; intros H.
       + intros [H1|H1]; [congruence|]. apply H. exact H1.
       + intros H1. apply H. right. exact H1.
   Qed.
 
   Lemma d_get_del d k k' : NoDup (d_keys d) ->
-    d_get (d_del d k) k' = if Nat.eqb k' k then None else d_get d k'.
+    d_get (d_del d k) k' = if N.eqb k' k then None else d_get d k'.
   Proof.
     induction d as [|[k0 v0] d IH]; simpl; intros ND.
-    - destruct (Nat.eqb k' k); reflexivity.
-    - inversion ND as [|? ? N1 N2]; subst. destruct (Nat.eqb k k0) eqn:E.
-      + apply Nat.eqb_eq in E. subst k0. destruct (Nat.eqb k' k) eqn:E2; [|reflexivity].
-        apply Nat.eqb_eq in E2. subst k'. apply d_get_none_keys. exact N1.
-      + simpl. rewrite (IH N2). destruct (Nat.eqb k' k0) eqn:E2; [|reflexivity].
-        apply Nat.eqb_eq in E2. subst k0. rewrite Nat.eqb_sym, E. reflexivity.
+    - destruct (N.eqb k' k); reflexivity.
+    - inversion ND as [|? ? N1 N2]; subst. destruct (N.eqb k k0) eqn:E.
+      + apply N.eqb_eq in E. subst k0. destruct (N.eqb k' k) eqn:E2; [|reflexivity].
+        apply N.eqb_eq in E2. subst k'. apply d_get_none_keys. exact N1.
+      + simpl. rewrite (IH N2). destruct (N.eqb k' k0) eqn:E2; [|reflexivity].
+        apply N.eqb_eq in E2. subst k0. rewrite N.eqb_sym, E. reflexivity.
   Qed.
 
   Lemma d_keys_set d k v : d_keys (d_set d k v) = if d_mem d k then d_keys d else d_keys d ++ [k].
   Proof.
     unfold d_mem, d_keys. induction d as [|[k0 v0] d IH]; simpl; [reflexivity|].
-    destruct (Nat.eqb k k0) eqn:E; simpl; [reflexivity|].
+    destruct (N.eqb k k0) eqn:E; simpl; [reflexivity|].
     rewrite IH. destruct (d_get d k); reflexivity.
   Qed.
 
   Lemma d_mem_keys d k : d_mem d k = true <-> In k (d_keys d).
   Proof.
     unfold d_mem. destruct (d_get d k) eqn:E.
-    - split; [intros _|reflexivity]. destruct (in_dec Nat.eq_dec k (d_keys d)) as [H|H]; [exact H|].
+    - split; [intros _|reflexivity]. destruct (in_dec N.eq_dec k (d_keys d)) as [H|H]; [exact H|].
       apply d_get_none_keys in H. congruence.
     - apply d_get_none_keys in E. split; [discriminate|contradiction].
   Qed.
@@ -71,25 +71,25 @@ Section Dict.
   Lemma d_del_keys_incl d k x : In x (d_keys (d_del d k)) -> In x (d_keys d).
   Proof.
     unfold d_keys. induction d as [|[k0 v0] d IH]; simpl; [tauto|].
-    destruct (Nat.eqb k k0); simpl; [auto|]. intros [H|H]; auto.
+    destruct (N.eqb k k0); simpl; [auto|]. intros [H|H]; auto.
   Qed.
 
   Lemma d_del_nodup d k : NoDup (d_keys d) -> NoDup (d_keys (d_del d k)).
   Proof.
     unfold d_keys. induction d as [|[k0 v0] d IH]; simpl; intros ND; [constructor|].
-    inversion ND as [|? ? N1 N2]; subst. destruct (Nat.eqb k k0); [exact N2|].
+    inversion ND as [|? ? N1 N2]; subst. destruct (N.eqb k k0); [exact N2|].
     simpl. constructor; [|apply IH; exact N2]. intros H. apply N1. apply (d_del_keys_incl d k). exact H.
   Qed.
 
   Lemma d_del_length d k : d_mem d k = true -> S (length (d_del d k)) = length d.
   Proof.
     unfold d_mem. induction d as [|[k0 v0] d IH]; simpl; [discriminate|].
-    destruct (Nat.eqb k k0); simpl; [reflexivity|]. intros H. rewrite IH by exact H. reflexivity.
+    destruct (N.eqb k k0); simpl; [reflexivity|]. intros H. rewrite IH by exact H. reflexivity.
   Qed.
 End Dict.
 
 (* ---- the invariant ------------------------------------------------------------- *)
-Definition map_ok (its : list (option K)) (m : pydict nat) : Prop :=
+Definition map_ok (its : list (option K)) (m : tdict nat) : Prop :=
   forall x i, d_get m x = Some i <-> nth_error its i = Some (Some x).
 
 Record Inv0 (s : iset) : Prop := mkInv0 {
@@ -135,8 +135,8 @@ Proof. intros H. apply live_nodup_inj. intros i j x. apply map_ok_inj with (m :=
 Lemma l_mem_In x l : l_mem x l = true <-> In x l.
 Proof.
   unfold l_mem. rewrite existsb_exists. split.
-  - intros [y [H1 H2]]. apply Nat.eqb_eq in H2. subst. exact H1.
-  - intros H. exists x. split; [exact H|apply Nat.eqb_refl].
+  - intros [y [H1 H2]]. apply N.eqb_eq in H2. subst. exact H1.
+  - intros H. exists x. split; [exact H|apply N.eqb_refl].
 Qed.
 
 Lemma bool_eq_iff (a b : bool) : (a = true <-> b = true) -> a = b.
@@ -171,17 +171,17 @@ Qed.
 Lemma l_remove_app x A B : ~ In x A -> l_remove x (A ++ x :: B) = A ++ B.
 Proof.
   induction A as [|y A IH]; simpl; intros N.
-  - rewrite Nat.eqb_refl. reflexivity.
-  - destruct (Nat.eqb x y) eqn:E.
-    + apply Nat.eqb_eq in E. subst. exfalso. apply N. left. reflexivity.
+  - rewrite N.eqb_refl. reflexivity.
+  - destruct (N.eqb x y) eqn:E.
+    + apply N.eqb_eq in E. subst. exfalso. apply N. left. reflexivity.
     + f_equal. apply IH. intros H. apply N. right. exact H.
 Qed.
 
 Lemma l_remove_notin x l : ~ In x l -> l_remove x l = l.
 Proof.
   induction l as [|y l IH]; simpl; intros N; [reflexivity|].
-  destruct (Nat.eqb x y) eqn:E.
-  - apply Nat.eqb_eq in E. subst. exfalso. apply N. left. reflexivity.
+  destruct (N.eqb x y) eqn:E.
+  - apply N.eqb_eq in E. subst. exfalso. apply N. left. reflexivity.
   - f_equal. apply IH. intros H. apply N. right. exact H.
 Qed.
 
@@ -191,23 +191,23 @@ Proof.
   f_equal. exact IH.
 Qed.
 
-Lemma nth_app_mid (A B : list K) x j : length A = j -> nth j (A ++ x :: B) 0 = x.
+Lemma nth_app_mid (A B : list K) x j : length A = j -> nth j (A ++ x :: B) 0%N = x.
 Proof. intros <-. rewrite app_nth2 by lia. rewrite Nat.sub_diag. reflexivity. Qed.
 
 Lemma l_index_app x A B : ~ In x A -> l_index x (A ++ x :: B) = Some (length A).
 Proof.
   induction A as [|y A IH]; simpl; intros N.
-  - rewrite Nat.eqb_refl. reflexivity.
-  - destruct (Nat.eqb x y) eqn:E.
-    + apply Nat.eqb_eq in E. subst. exfalso. apply N. left. reflexivity.
+  - rewrite N.eqb_refl. reflexivity.
+  - destruct (N.eqb x y) eqn:E.
+    + apply N.eqb_eq in E. subst. exfalso. apply N. left. reflexivity.
     + rewrite IH; [reflexivity|]. intros H. apply N. right. exact H.
 Qed.
 
 Lemma l_index_none x l : ~ In x l -> l_index x l = None.
 Proof.
   induction l as [|y l IH]; simpl; intros N; [reflexivity|].
-  destruct (Nat.eqb x y) eqn:E.
-  - apply Nat.eqb_eq in E. subst. exfalso. apply N. left. reflexivity.
+  destruct (N.eqb x y) eqn:E.
+  - apply N.eqb_eq in E. subst. exfalso. apply N. left. reflexivity.
   - rewrite IH; [reflexivity|]. intros H. apply N. right. exact H.
 Qed.
 
@@ -219,14 +219,14 @@ Proof.
   destruct H as [H1 H2 H3 H4]. unfold m_live in *. simpl.
   split; [split; [constructor; simpl|]|].
   - apply layout_app_live. exact H1.
-  - intros y i. rewrite d_get_set. destruct (Nat.eqb y x) eqn:E.
-    + apply Nat.eqb_eq in E. subst y. split.
+  - intros y i. rewrite d_get_set. destruct (N.eqb y x) eqn:E.
+    + apply N.eqb_eq in E. subst y. split.
       * intros [= <-]. rewrite nth_error_app2 by lia. rewrite Nat.sub_diag. reflexivity.
       * intros Hn. destruct (Nat.lt_ge_cases i (length (items s))) as [L|L].
         -- rewrite nth_error_app1 in Hn by lia. apply H2 in Hn. unfold d_mem in M. rewrite Hn in M. discriminate.
         -- f_equal. assert (i < length (items s ++ [Some x])) by (apply nth_error_Some; congruence).
            rewrite app_length in H. simpl in H. lia.
-    + apply Nat.eqb_neq in E. destruct (Nat.lt_ge_cases i (length (items s))) as [L|L].
+    + apply N.eqb_neq in E. destruct (Nat.lt_ge_cases i (length (items s))) as [L|L].
       * rewrite nth_error_app1 by lia. apply H2.
       * split; intros Hn.
         -- apply H2 in Hn. assert (i < length (items s)) by (apply nth_error_Some; congruence). lia.
@@ -251,12 +251,12 @@ Proof.
   split; [constructor; simpl|unfold m_live; simpl; apply (live_set_none _ _ x); exact E].
   - apply (layout_add_dead 0 _ _ r x); assumption.
   - intros y i. rewrite (d_get_del _ _ _ H3), nth_error_set_nth.
-    destruct (Nat.eqb y x) eqn:Ey.
-    + apply Nat.eqb_eq in Ey. subst y. split; [discriminate|].
+    destruct (N.eqb y x) eqn:Ey.
+    + apply N.eqb_eq in Ey. subst y. split; [discriminate|].
       destruct (Nat.eqb i r) eqn:Ei.
       * replace (r <? length (items s)) with true by (symmetry; apply Nat.ltb_lt; lia). discriminate.
       * apply Nat.eqb_neq in Ei. intros Hn. apply H2 in Hn. congruence.
-    + apply Nat.eqb_neq in Ey. destruct (Nat.eqb i r) eqn:Ei.
+    + apply N.eqb_neq in Ey. destruct (Nat.eqb i r) eqn:Ei.
       * apply Nat.eqb_eq in Ei. subst i.
         replace (r <? length (items s)) with true by (symmetry; apply Nat.ltb_lt; lia).
         split; [|discriminate]. intros Hn. apply H2 in Hn. congruence.
@@ -273,11 +273,11 @@ Lemma l_index_nth x xs j : NoDup xs -> (l_index x xs = Some j <-> nth_error xs j
 Proof.
   revert j; induction xs as [|y xs IH]; intros j ND; simpl.
   - destruct j; split; discriminate.
-  - inversion ND as [|? ? N1 N2]; subst. destruct (Nat.eqb x y) eqn:E.
-    + apply Nat.eqb_eq in E. subst y. split.
+  - inversion ND as [|? ? N1 N2]; subst. destruct (N.eqb x y) eqn:E.
+    + apply N.eqb_eq in E. subst y. split.
       * intros [= <-]. reflexivity.
       * destruct j; [reflexivity|]. simpl. intros Hn. apply nth_error_In in Hn. contradiction.
-    + apply Nat.eqb_neq in E. destruct j; simpl.
+    + apply N.eqb_neq in E. destruct j; simpl.
       * destruct (l_index x xs); split; try discriminate; congruence.
       * specialize (IH j N2). destruct (l_index x xs) as [i|].
         -- split; [intros [= <-]; apply IH; reflexivity|intros Hn; apply IH in Hn; congruence].
@@ -290,14 +290,14 @@ Lemma remap_get : forall xs k m x, NoDup xs ->
 Proof.
   induction xs as [|y xs IH]; intros k m x ND; simpl; [reflexivity|].
   inversion ND as [|? ? N1 N2]; subst. rewrite (IH (S k) _ x N2).
-  destruct (Nat.eqb x y) eqn:E.
-  - apply Nat.eqb_eq in E. subst y. rewrite (l_index_none x xs N1).
-    rewrite d_get_set, Nat.eqb_refl. f_equal. lia.
+  destruct (N.eqb x y) eqn:E.
+  - apply N.eqb_eq in E. subst y. rewrite (l_index_none x xs N1).
+    rewrite d_get_set, N.eqb_refl. f_equal. lia.
   - destruct (l_index x xs) as [j|]; [f_equal; lia|].
     rewrite d_get_set, E. reflexivity.
 Qed.
 
-Lemma remap_keys : forall xs k (m : pydict nat), (forall x, In x xs -> d_mem m x = true) ->
+Lemma remap_keys : forall xs k (m : tdict nat), (forall x, In x xs -> d_mem m x = true) ->
   d_keys (fold_left (fun m ix => d_set m (snd ix) (fst ix)) (enumerate_from k xs) m) = d_keys m.
 Proof.
   induction xs as [|y xs IH]; intros k m H; simpl; [reflexivity|].
@@ -314,7 +314,7 @@ Proof.
   destruct (IH y) as [z Hz]. exists z. exact Hz.
 Qed.
 
-Lemma rebuild_inv (m : pydict nat) xs :
+Lemma rebuild_inv (m : tdict nat) xs :
   NoDup xs -> NoDup (d_keys m) -> (forall x, In x xs <-> d_mem m x = true) -> length m = length xs ->
   Inv (mkIS (map Some xs) (remap m xs) []) /\ m_live (mkIS (map Some xs) (remap m xs) []) = xs.
 Proof.
@@ -421,10 +421,10 @@ Proof.
     rewrite Em, E. split; [|reflexivity]. apply Inv_empty. }
   destruct (max_dead_intervals c <? length ((a, b) :: t)); [apply compact_inv; exact H|].
   destruct (length (items s) <? compaction_factor c * dead_count s); [apply compact_inv; exact H|].
-  destruct (last (items s) (Some 0)) as [y|] eqn:EL.
+  destruct (last (items s) (Some 0%N)) as [y|] eqn:EL.
   { split; [|reflexivity]. split; [exact H|].
     destruct (items s) as [|o its] eqn:I; [left; reflexivity|right]. exists y.
-    rewrite (last_default_irrelevant (o :: its) None (Some 0)) by discriminate. exact EL. }
+    rewrite (last_default_irrelevant (o :: its) None (Some 0%N)) by discriminate. exact EL. }
   (* right-trim *)
   cbn zeta.
   destruct (trailing_none_split (items s)) as (T1 & T2 & T3).
@@ -506,7 +506,7 @@ Proof.
 Qed.
 
 Lemma getitem_ok s i j : Inv0 s -> norm_index (length (m_live s)) i = Some j ->
-  m_getitem s i = Ok (nth j (m_live s) 0).
+  m_getitem s i = Ok (nth j (m_live s) 0%N).
 Proof.
   intros H N. unfold m_getitem.
   assert (N2 : norm_index (length (m_live s)) (norm_neg s i) = Some j).
@@ -550,12 +550,12 @@ Proof.
   - eapply layout_removelast. exact H1.
   - assert (Ex : nth_error (its' ++ [Some x]) (length its') = Some (Some x)).
     { rewrite nth_error_app2 by lia. rewrite Nat.sub_diag. reflexivity. }
-    intros y i. rewrite (d_get_del _ _ _ H3). destruct (Nat.eqb y x) eqn:Ey.
-    + apply Nat.eqb_eq in Ey. subst y. split; [discriminate|]. intros G.
+    intros y i. rewrite (d_get_del _ _ _ H3). destruct (N.eqb y x) eqn:Ey.
+    + apply N.eqb_eq in Ey. subst y. split; [discriminate|]. intros G.
       assert (Li : i < length its') by (apply nth_error_Some; congruence).
       assert (G2 : nth_error (its' ++ [Some x]) i = Some (Some x)) by (rewrite nth_error_app1 by lia; exact G).
       pose proof (map_ok_inj _ _ _ _ _ H2 G2 Ex). lia.
-    + apply Nat.eqb_neq in Ey. split.
+    + apply N.eqb_neq in Ey. split.
       * intros G. apply H2 in G. destruct (Nat.lt_ge_cases i (length its')) as [L|L].
         -- rewrite nth_error_app1 in G by lia. exact G.
         -- rewrite nth_error_app2 in G by lia. destruct (i - length its') as [|k]; simpl in G; [congruence|].
